@@ -424,10 +424,14 @@ class Moment:
         return len(self.operations)
 
     def __repr__(self) -> str:
-        if not self.operations:
+        if not self.operations and not self.tags:
             return 'cirq.Moment()'
 
-        block = '\n'.join([repr(op) + ',' for op in self.operations])
+        args = [repr(op) + ',' for op in self.operations]
+        if self.tags:
+            tags_repr = ', '.join(_compat.proper_repr(t) for t in self.tags)
+            args.append(f'tags=({tags_repr},),')
+        block = '\n'.join(args)
         indented = '    ' + '\n    '.join(block.split('\n'))
 
         return f'cirq.Moment(\n{indented}\n)'
